@@ -61,6 +61,72 @@ def schedules():
                      _uop("rem", 2, ["m"], key="k1", o=""), {"a": "dlv", "r": 1, "u": [6]}]
                 s += ([{"a": "gcf", "r": 1}] if forced else []) + [{"a": "undo", "r": 1}, {"a": "undo", "r": 1}, {"a": "redo", "r": 1}]
                 add("staler" + k, ["t", "m"], s, gc1)
+    # XML scope: an element with an attribute, a nested text node (characters, formatting) and a nested element, plus a
+    # text node, built by the tracked origin (one captured step) or by another origin
+    gcf, undo, redo = {"a": "gcf", "r": 1}, {"a": "undo", "r": 1}, {"a": "redo", "r": 1}
+    build = [_uop("ins", 1, ["x"], 0, 1, k="E"), _uop("set", 1, ["x", "#e0"], key="id"), _uop("ins", 1, ["x", "#e0"], 0, 2, k="X"),
+             _uop("fmt", 1, ["x", "#e0", "#t0"], 0, 1, key="b"), _uop("ins", 1, ["x", "#e0"], 1, 1, k="E"),
+             _uop("ins", 1, ["x"], 1, 2, k="X"), tick]
+    for gc1 in (True, False):
+        for o in ("U", ""):
+            b = [dict(s, o=o) if s["a"] == "uop" else s for s in build]
+            # the whole subtree is removed by the tracked origin (tombstones the manager may have to restore)
+            add("xmlsub", ["x"], b + [_uop("del", 1, ["x"], 0, 1), tick, gcf, undo, gcf, redo, gcf, undo], gc1)
+            # attribute overwritten / removed, characters deleted, formatting replaced inside the kept subtree
+            add("xmlin", ["x"], b + [_uop("set", 1, ["x", "#e0"], key="id"), tick, _uop("rem", 1, ["x", "#e0"], key="id"), tick,
+                                     _uop("del", 1, ["x", "#e0", "#t0"], 0, 2), tick, _uop("fmt", 1, ["x", "#t0"], 0, 2, key="b"), tick,
+                                     _uop("fmt", 1, ["x", "#t0"], 0, 1, key="b"), tick,
+                                     gcf, undo, undo, gcf, undo, undo, undo, gcf, redo, redo, redo], gc1)
+        # a remote peer removes the element the tracked origin edited inside; forced / ordinary gc; undo, redo
+        for forced in (True, False):
+            s = build + [{"a": "sync", "f": 1, "t": 2, "how": "state", "sv": "own"}, _uop("ins", 1, ["x", "#e0", "#t0"], 1, 1), tick,
+                         _uop("set", 1, ["x", "#e0"], key="cl"), tick, _uop("del", 2, ["x"], 0, 1, o=""), {"a": "dlv", "r": 1, "u": [9]}]
+            add("xmlrem", ["x"], s + ([gcf] if forced else []) + [undo, undo, redo, undo, undo], gc1)
+    # Multi-operation transactions: ONE tracked transaction deletes content of the tracked type AND removes a nested type
+    # outside the scope (that subtree is not kept: it is collected, the transaction's delete set holds a collected range next
+    # to the kept tombstones).  Layouts: subtree created before / after the tracked content (clock order inside the delete
+    # set), content of a remote client with a higher id, gc on / forced gc on a gc-off replica / no gc (control); then undo,
+    # redo, undo, and the closing exchange with the other replicas.
+    def mop(op, p, i=0, n=1, k="u", key=""):
+        return {"op": op, "p": p, "i": i, "n": n, "k": k, "key": key}
+
+    def multi(ops, o="U", r=1):
+        return {"a": "umulti", "r": r, "o": o, "ops": ops}
+
+    def slots(steps):
+        return sum(1 for x in steps if x["a"] in ("uop", "umulti", "undo", "redo"))
+
+    # (scope, tracked content, its partial deletion, out-of-scope subtree, its removal)
+    shapes = [
+        (["t"], _uop("ins", 1, ["t"], 0, 3), mop("del", ["t"], 0, 2), _uop("set", 1, ["m"], key="k1", k="M"), mop("rem", ["m"], key="k1")),
+        (["t"], _uop("ins", 1, ["t"], 0, 3), mop("del", ["t"], 1, 2), _uop("ins", 1, ["a"], 0, 1, k="A"), mop("del", ["a"], 0, 1)),
+        (["a"], _uop("ins", 1, ["a"], 0, 2), mop("del", ["a"], 0, 2), _uop("set", 1, ["m"], key="k1", k="A"), mop("rem", ["m"], key="k1")),
+        (["m"], _uop("set", 1, ["m"], key="k2", k="A"), mop("rem", ["m"], key="k2"), _uop("ins", 1, ["a"], 0, 1, k="M"), mop("del", ["a"], 0, 1)),
+        (["x"], _uop("ins", 1, ["x"], 0, 3, k="X"), mop("del", ["x", "#t0"], 0, 2), _uop("set", 1, ["m"], key="k1", k="M"), mop("rem", ["m"], key="k1")),
+        (["x"], _uop("ins", 1, ["x"], 0, 1, k="E"), mop("del", ["x"], 0, 1), _uop("ins", 1, ["a"], 0, 1, k="M"), mop("del", ["a"], 0, 1)),
+    ]
+    for gc1 in (True, False):
+        for scope, content, cdel, sub, sdel in shapes:
+            for sub_first in (True, False):
+                build = ([sub, content] if sub_first else [content, sub]) + [tick]
+                for ops in ([sdel, cdel], [cdel, sdel]):
+                    for forced in ((False, True) if gc1 else (True, False)):
+                        s = build + [multi(ops), tick] + ([gcf] if forced else []) + [undo, redo] + ([gcf] if forced else []) + [undo]
+                        add("multi" + scope[0], scope, s, gc1)
+        # remote peers: the tracked content comes from replica 2 (higher client id: its tombstones follow the collected range of
+        # client 1 in the delete set) / the subtree comes from replica 2 (control: collected range last)
+        sync12 = {"a": "sync", "f": 1, "t": 2, "how": "state", "sv": "own"}
+        for forced in (True, False):
+            s = [_uop("set", 1, ["m"], key="k1", k="M"), tick, sync12, _uop("ins", 2, ["t"], 0, 3, o="")]
+            s += [{"a": "dlv", "r": 1, "u": [slots(s)]}, multi([mop("rem", ["m"], key="k1"), mop("del", ["t"], 0, 2)]), tick]
+            add("multirem", ["t"], s + ([gcf] if forced else []) + [undo, redo, undo], gc1)
+            s = [_uop("ins", 1, ["t"], 0, 3), tick, sync12, _uop("set", 2, ["m"], key="k1", k="M", o="")]
+            s += [{"a": "dlv", "r": 1, "u": [slots(s)]}, multi([mop("rem", ["m"], key="k1"), mop("del", ["t"], 0, 2)]), tick]
+            add("multirem", ["t"], s + ([gcf] if forced else []) + [undo, redo, undo], gc1)
+        # an UNTRACKED transaction removes the subtree and edits the tracked type (foreign edit: isolation only), then tracked steps
+        s = [_uop("set", 1, ["m"], key="k1", k="M"), _uop("ins", 1, ["t"], 0, 3), tick,
+             multi([mop("rem", ["m"], key="k1"), mop("del", ["t"], 0, 1)], o=""), _uop("del", 1, ["t"], 0, 1), tick, gcf, undo, undo, redo]
+        add("multifor", ["t"], s, gc1)
     return out
 
 
